@@ -209,12 +209,26 @@ class CellExec:
                 tg = st.targets[0]
                 if isinstance(tg, ast.Name):
                     ev.env[tg.id] = ev.eval(st.value)
-                elif isinstance(tg, ast.Tuple) and self.on_assign_call is not None:
-                    vals = self.on_assign_call(st, ev)
+                elif isinstance(tg, ast.Tuple) and all(isinstance(t_, ast.Name) for t_ in tg.elts):
+                    vals = self.on_assign_call(st, ev) if self.on_assign_call is not None else None
+                    if vals is None and isinstance(st.value, ast.Call):
+                        # a, b = f(...): element k of the call's result (the evaluator decides what f(...)[k] is)
+                        vals = []
+                        for k_ in range(len(tg.elts)):
+                            sub = ast.Subscript(value=st.value, slice=ast.Constant(value=k_), ctx=ast.Load())
+                            ast.copy_location(sub, st.value)
+                            ast.copy_location(sub.slice, st.value)
+                            try:
+                                vals.append(ev.eval(sub))
+                            except Undecided:
+                                vals.append(None)
                     if vals is None or len(vals) != len(tg.elts):
                         raise Undecided("tuple assignment %s" % ast.unparse(st)[:60])
                     for t_, v_ in zip(tg.elts, vals):
-                        ev.env[t_.id] = v_
+                        if v_ is None:
+                            ev.env.pop(t_.id, None)
+                        else:
+                            ev.env[t_.id] = v_
                 else:
                     raise Undecided("assignment %s" % ast.unparse(st)[:60])
             elif isinstance(st, ast.AugAssign) and isinstance(st.target, ast.Name):
